@@ -49,8 +49,8 @@ func init() {
 		Meta: func(tier string) fw.Meta {
 			na, nb := c11Sizes(tier)
 			return fw.Meta{N: na + nb, Level: "fault_enumeration", Chunk: 8, CaseTimeoutS: 240, MinNT: 60,
-				Rule:        "(a) one case = one seeded input set (1..4 ascending inputs, overlapping for the compacting merges, disjoint for Merge) run through Merge / MergeCompact with both reductions / MergeCompactIterator: single fault at EVERY Next position of EVERY input (variants: fail-then-continue, fail-repeatedly, fail-then-end) and at EVERY WriteNext position, plus sampled double faults; every 6th case instead merges REAL tables (reader.Scan, no validation on load) one of whose data files ends early at every record boundary and inside records; oracle: error returned, or output identical to the fault-free output. (b) one case = one SimpleDB scenario in a sub-process (flush of a memstore, one compaction cycle over 2..4 tables, or the flush that Open performs for the replayed WAL of a hand-placed kill image) with one fault: k-th data append / k-th index append of the stream writer, p-th record of an input iterator, RLIMIT_FSIZE = L bytes (kernel-level EFBIG at the first write crossing L), or ONE file of the flushed table (metadata, index, data, bloom filter) on a full device (symlink to /dev/full planted in the directory the flush will use: ENOSPC on every write to it); and compactions run by the REAL background compactor whose input fails while Close is already waiting for it (the failing iterator holds its error until the goroutine dump shows Close waiting for the compactor's done signal, its stop request sent); oracle: process stopped or error returned, never success with reads differing from the model; after a reported error the same process and a fresh process must still read the model. evaluations = fault runs; non-trivial = fault actually reached; distinct by (input hash, fault)",
-				MinObs:      map[string]int64{"merger_fault_runs": 3000, "merger_faults_reached": 2000, "merger_errors_reported": 1000, "db_fault_scenarios": 100, "db_fault_reached": 40, "db_process_stopped_or_error": 30, "rlimit_faults_reached": 5, "full_device_faults_reached": 5, "live_compactor_failures_while_close_waits": 5},
+				Rule:        "(a) one case = one seeded input set (1..4 ascending inputs, overlapping for the compacting merges, disjoint for Merge) run through Merge / MergeCompact with both reductions / MergeCompactIterator: single fault at EVERY Next position of EVERY input (variants: fail-then-continue, fail-repeatedly, fail-then-end, and the first and third with a failed call that has consumed its record and reports a wrapped temporary system error) and at EVERY WriteNext position, plus sampled double faults; every 6th case instead merges REAL tables (reader.Scan, no validation on load) one of whose data files ends early at every record boundary and inside records; oracle: error returned, or output identical to the fault-free output. (b) one case = one SimpleDB scenario in a sub-process (flush of a memstore, one compaction cycle over 2..4 tables, or the flush that Open performs for the replayed WAL of a hand-placed kill image) with one fault: k-th data append / k-th index append of the stream writer, p-th record of an input iterator, one bit of a stored payload of an input table flipped on disk after the table was loaded, RLIMIT_FSIZE = L bytes (kernel-level EFBIG at the first write crossing L), or ONE file of the flushed table (metadata, index, data, bloom filter) on a full device (symlink to /dev/full planted in the directory the flush will use: ENOSPC on every write to it); and compactions run by the REAL background compactor whose input fails while Close is already waiting for it (the failing iterator holds its error until the goroutine dump shows Close waiting for the compactor's done signal, its stop request sent); oracle: process stopped or error returned, never success with reads differing from the model; after a reported error the same process and a fresh process must still read the model. evaluations = fault runs; non-trivial = fault actually reached; distinct by (input hash, fault)",
+				MinObs:      map[string]int64{"merger_fault_runs": 3000, "merger_faults_reached": 2000, "merger_errors_reported": 1000, "db_fault_scenarios": 100, "db_fault_reached": 40, "db_process_stopped_or_error": 30, "rlimit_faults_reached": 5, "full_device_faults_reached": 5, "live_compactor_failures_while_close_waits": 5, "damaged_input_records_met_by_a_compaction": 5},
 				Assumptions: []string{"hook-level failures are clean failures; RLIMIT_FSIZE failures are real EFBIG results of write(2) through the real buffered writers", "a flush failure ends the process (log.Panicf) — the recoverability of what it leaves behind belongs to C02"},
 			}
 		},
@@ -65,13 +65,16 @@ type c11Iter struct {
 	items   []kv
 	pos     int
 	failAt  int // Next-call index at which to fail (-1 never)
-	variant int // 0 fail once then continue, 1 fail repeatedly (20x) then Done, 2 fail then Done
+	variant int // 0 fail once then continue, 1 fail repeatedly (20x) then Done, 2 fail then Done, 3/4 = 0/2 with the failed call CONSUMING its record and a "temporary" system error (what a table scan does when its data read times out)
 	calls   int
 	fails   int
 	reached *bool
 }
 
 var errC11 = errors.New("verif: injected iterator failure")
+
+// errC11Temporary is a failure of the kind a reader reports for a read that timed out: wrapped, and Temporary() is true
+var errC11Temporary = fmt.Errorf("verif: error while reading next record: %w", &os.PathError{Op: "read", Path: "data.rio", Err: syscall.ETIMEDOUT})
 
 func (it *c11Iter) Next() ([]byte, []byte, error) {
 	call := it.calls
@@ -96,6 +99,17 @@ func (it *c11Iter) Next() ([]byte, []byte, error) {
 				return nil, nil, errC11
 			}
 			return nil, nil, sstables.Done
+		case 3, 4:
+			if call == it.failAt {
+				*it.reached = true
+				if it.pos < len(it.items) {
+					it.pos++ // the index had already advanced when the data read failed
+				}
+				return nil, nil, errC11Temporary
+			}
+			if it.variant == 4 {
+				return nil, nil, sstables.Done
+			}
 		}
 	}
 	if it.pos >= len(it.items) {
@@ -266,7 +280,7 @@ func runC11(c *fw.Case) {
 	}
 	for i, in := range inputs {
 		for p := 0; p <= len(in); p++ {
-			for v := 0; v < 3; v++ {
+			for v := 0; v < 5; v++ {
 				judge([]c11Fault{{i, p, v}}, fmt.Sprintf("input %d failed at Next #%d (variant %d)", i, p, v))
 				if c.Violated() {
 					break
@@ -650,6 +664,7 @@ func c11Sub(args []string) int {
 	var oldLim syscall.Rlimit
 	rlimit := false
 	devfull := false
+	bitflip := false
 	parts := strings.Split(*fault, ":")
 	switch parts[0] {
 	case "data", "index":
@@ -680,6 +695,32 @@ func c11Sub(args []string) int {
 		_ = syscall.Getrlimit(syscall.RLIMIT_FSIZE, &oldLim)
 		if err := syscall.Setrlimit(syscall.RLIMIT_FSIZE, &syscall.Rlimit{Cur: l, Max: oldLim.Max}); err == nil {
 			rlimit = true
+		}
+	case "bitflip":
+		var pick int
+		fmt.Sscan(parts[1], &pick)
+		live := db.VerifLiveTables()
+		if len(live) > 0 {
+			dp := filepath.Join(*dir, filepath.Base(live[pick%len(live)].BasePath), sstables.DataFileName)
+			if img, err := os.ReadFile(dp); err == nil {
+				if pf, err := rio.Parse(img); err == nil {
+					var cand []rio.Rec
+					for _, rc := range pf.Recs {
+						if rc.PayloadLen > 0 {
+							cand = append(cand, rc)
+						}
+					}
+					if len(cand) > 0 {
+						rc := cand[pick%len(cand)]
+						img[rc.PayloadOff+(pick/7)%rc.PayloadLen] ^= 1 << (pick % 8)
+						if f, err := os.OpenFile(dp, os.O_WRONLY, 0); err == nil {
+							_, werr := f.WriteAt(img, 0)
+							_ = f.Close()
+							bitflip = werr == nil
+						}
+					}
+				}
+			}
 		}
 	case "devfull":
 		next := uint64(1)
@@ -745,6 +786,9 @@ func c11Sub(args []string) int {
 		if devfull {
 			rep.Reached = true // nothing else can fail in this scenario (the flusher's own error text ends up in its panic)
 		}
+	}
+	if bitflip {
+		rep.Reached = true // the damaged record sits in a table of the run (every live table is selected with these settings)
 	}
 	reads, rerr := c11ReadAll(db, keys)
 	rep.Reads = reads
@@ -1015,7 +1059,11 @@ func c11DB(c *fw.Case, j int) {
 	case spec < 10:
 		fault = fmt.Sprintf("rlimit:%d", []int{r.Intn(8), 8 + r.Intn(40), 48 + r.Intn(400), 300 + r.Intn(3000)}[spec-6])
 	default:
-		if mode == "compaction" {
+		if mode == "compaction" && scenario%2 == 0 {
+			// a record of an input table no longer reads back as written (one bit of its stored payload flipped on disk after
+			// the table was loaded): reading it fails its checksum — the compaction must not launder it into a fresh table
+			fault = fmt.Sprintf("bitflip:%d", r.Intn(1000))
+		} else if mode == "compaction" {
 			fault = fmt.Sprintf("iter:%d:%d", r.Intn(4), r.Intn(8))
 		} else if spec == 10 {
 			fault = fmt.Sprintf("rlimit:%d", 20+r.Intn(200))
@@ -1092,6 +1140,14 @@ func c11DB(c *fw.Case, j int) {
 		// success was reported although one file of the table could not be written: acceptable only if nothing is
 		// missing or misrepresented (the read comparisons below, in this process and in a fresh one)
 		c.Obs("full_device_on_a_file_whose_loss_was_not_reported", 1)
+	}
+	if kind == "bitflip" && result.Reached {
+		c.Obs("damaged_input_records_met_by_a_compaction", 1)
+	}
+	if kind == "bitflip" && result.Err != "" {
+		// the table stays damaged on disk: what is readable afterwards is not this property's business
+		c.Obs("db_process_stopped_or_error", 1)
+		return
 	}
 	if result.Err != "" {
 		c.Obs("db_process_stopped_or_error", 1)
